@@ -183,6 +183,20 @@ theorem in_callback_action (d : Dev) (ops : List Op) (pos : Pos) (a : Act)
       intro a ph; cases a <;> cases ph <;> decide
     exact key a _ _ hm
 
+/-- `is_connected()` is cleared on every `disconnected` — `close_link` and link errors alike — and set just before
+`connected` (what the model's `connTs` assumes; a session that ended in ANY way leaves no stale "connected") -/
+theorem connected_ts_cleared_on_every_disconnected :
+    connectedTsClearedOnDisconnected = true ∧ connectedTsSetBeforeConnected = true := by decide
+
+/-- **is_connected_only_while_connected**: after every history — sessions ending by close_link, by a link error from the
+driver's or a sending thread, from inside a callback, by a failing driver, in any order, with extra packets — `is_connected()`
+is true only while a link is open and `connected` has been signalled for the CURRENT attempt; in particular the guard
+of the parameter completion test (D28) is never stale in a later attempt. -/
+theorem is_connected_only_while_connected (d : Dev) (ops : List Op) (hu : usage d Sys.init ops = true) :
+    (run d Sys.init ops).1.c.connTs = true →
+      (run d Sys.init ops).1.c.link = true ∧ (phase (run d Sys.init ops).1.c).isConnected = true :=
+  connTs_phase d _ (run_sound d ops Sys.init (sinv_init d) hu).1.core
+
 /-- **sync_open_returns / sync_close_returns**: after every operation sequence, a `SyncCrazyflie.open_link` that is
 still blocked belongs to an attempt that is still in progress (link open, `connected` not yet signalled): as soon as
 the attempt ends — link error from either thread, `close_link`, `connection_failed` — or connects, the call has
